@@ -93,6 +93,10 @@ pub struct Run {
     pub charged_at: BTreeMap<(usize, &'static str), Integer>,
     /// a funding settlement has succeeded earlier in this history
     pub funding_settled: bool,
+    /// cumulative premium fraction per vAMM as of the last successful settlement (harness-side
+    /// ledger: only PayFunding may move it; the oracles measure funding owed against this value,
+    /// not against whatever the engine reports at the time)
+    pub cum_ledger: Vec<Integer>,
 }
 
 pub fn deploy_or_drop(cfg: Cfg) -> World {
@@ -107,7 +111,9 @@ pub fn deploy_or_drop(cfg: Cfg) -> World {
 
 impl Run {
     pub fn new(cfg: Cfg, mon: Mon) -> Run {
-        Run { w: deploy_or_drop(cfg), mon, vi: 0, steps: 0, fault: None, charged_at: BTreeMap::new(), funding_settled: false }
+        let w = deploy_or_drop(cfg);
+        let cum_ledger = (0..w.vamms.len()).map(|i| if w.cfg.vamm_engine_is_owner { Integer::zero() } else { w.cum_premium(i) }).collect();
+        Run { w, mon, vi: 0, steps: 0, fault: None, charged_at: BTreeMap::new(), funding_settled: false, cum_ledger }
     }
     pub fn snap(&self) -> Snap {
         let w = &self.w;
@@ -175,6 +181,7 @@ impl Run {
         // funding ledger: which cumulative fraction the sender's position is settled up to
         if rec.tx.ok && matches!(rec.op, Op::PayFunding { .. }) {
             self.funding_settled = true;
+            self.cum_ledger[self.vi] = rec.post.cum[self.vi];
         }
         if rec.tx.ok {
             let who = rec.op.sender();
